@@ -84,11 +84,12 @@ CHECKS = {
             "None iff the language is infinite (pumping), Empty iff empty; cardinality = number of accepted words / "
             "InfiniteLanguageException iff infinite / 0 if empty; iteration = prefix of the (length, lexicographic) listing, "
             "complete for finite languages, nothing for the empty language; random_word returns an accepted word of length k "
-            "for every admissible draw vector, ValueError iff there is no such word. PARTIAL: (a) iteration of an infinite "
-            "language - the model's level budget is not proved sufficient (C13_iter_order_complete_partial allows an "
-            "out-of-fuel answer there; the harness treats it as a disagreement); (b) uniformity of random_word - proved as the "
-            "per-step interval lemma plus the telescoping product identity (C13_random_word_uniform_partial); the count of whole "
-            "draw vectors (C13_random_word_uniform_statement) is not formalised, it is enumerated by the harness instead.",
+            "for every admissible draw vector, ValueError iff there is no such word. Iteration of an infinite language: the model's "
+            "level budget n*(|Q|+1) is proved sufficient (every window of |Q| consecutive lengths holds an accepted word: pumping "
+            "down), so C13_iter_order_complete has no out-of-fuel branch. Uniformity of random_word (C13_random_word_uniform): for "
+            "every accepted word w of length k the draw vectors of the box of ranges along w's run that return w are counted "
+            "exactly - the product of cnt(remaining-1, next state) over the steps - and that count times cnt(k, initial) equals "
+            "the size of the box, i.e. every accepted word has mass 1/count (also enumerated by the harness).",
             "Assumes Random.randint is uniform (the model takes the drawn integers as an argument). networkx "
             "(digraph, dag_longest_path_length) is outside the model: maximum_word_length is a specification model. "
             "Demonstrates DESIGN section 8 row 7 on the unchanged tree (iterating an empty language raises).", "7/C13"),
